@@ -8,6 +8,13 @@ From H3V Require Import Base.Bytes Gen.GenCodes Gen.GenSharedErr Spec.FirstError
 (* the facts generated from today's source are the ones the proofs are about *)
 Theorem C05_generated_facts : liveness_cfg gen_cfg.
 Proof. exact gen_facts_ok. Qed.
+(* ... including the stream side: all paths of CloseStream / the frame-error dispatcher are the modelled raise
+   program, nobody else touches the cell or the waker, every handle carries the connection's shared state
+   (the translator refuses to generate these facts otherwise) *)
+Theorem C05_generated_stream_facts :
+  frame_error_arms = [(FsQuic, ViaQuicHelper); (FsProto, ViaInternalHelper); (FsUnexpectedEnd, ViaInternalHelperCode H3_FRAME_ERROR)] /\
+  stream_helpers_raise_and_wake = true /\ cell_and_waker_sites_closed = true /\ handles_share_connection_state = true.
+Proof. exact gen_stream_facts_ok. Qed.
 
 (* T1: the cell is written at most once ... *)
 Theorem C05_cell_set_once :
@@ -40,11 +47,12 @@ Theorem C05_closed_when_driver_reports :
   forall k w, reachable gen_cfg k w -> closed_when_reported (obs w).
 Proof. exact (fun k w => closed_when_reported_holds gen_cfg k w gen_safety_ok). Qed.
 
-(* T2: no lost wake-up.  A parked driver (last poll returned Pending) with the cell set has been
-   woken, or its waker is registered and a stream task is about to call wake() *)
+(* T2: no lost wake-up.  A parked driver (last poll returned Pending) with the cell set: the waker it passed to
+   that last poll has been woken, or that very waker (every poll brings its own) is registered and a stream
+   task is about to call wake() *)
 Theorem C05_no_lost_wakeup :
   forall k w, reachable gen_cfg k w -> cell w <> None -> dprog w = [] -> parked w = true ->
-    woken w = true \/ (wslot w = true /\ wake_coming w).
+    woken w = true \/ (wslot w = Some (gen w) /\ wake_coming w).
 Proof. exact (fun k w => no_lost_wakeup gen_cfg k w gen_facts_ok). Qed.
 
 Theorem C05_parked_driver_is_woken :
@@ -67,6 +75,15 @@ Theorem C05_repolled_driver_reports :
       In (EReport HDriver (spec_report e)) (obs w').
 Proof. exact (fun k w e calls pend => repoll_reports gen_cfg k w e calls pend gen_facts_ok). Qed.
 
+(* a driver call that is not a poll of the connection (shutdown(), ...) and fails in the transport once the cell
+   is set returns the connection's outcome, not the error it just met *)
+Theorem C05_failed_driver_call_reports :
+  forall k w e e', reachable gen_cfg k w -> cell w = Some e -> dprog w = [] ->
+    exists n, let w' := run gen_cfg (ACall e' :: repeat AStep n) w in
+      dprog w' = [] /\ cell w' = Some e /\ handled w' = Some (spec_report e) /\
+      last_dev (trace w') = Some (EReport HDriver (spec_report e)).
+Proof. exact (fun k w e e' => failed_call_reports gen_cfg k w e e' gen_facts_ok). Qed.
+
 (* the single-outcome part does not depend on the register/check order (it held before the repair) *)
 Theorem C05_single_outcome_any_order :
   forall k w, reachable (with_poll gen_cfg old_poll) k w -> single_outcome (obs w) /\ close_ok (obs w).
@@ -84,8 +101,8 @@ Proof. exact (lost_wakeup_old_order gen_cfg gen_facts_ok). Qed.
 
 (* every world visited by the correspondence runs is covered by the theorems above *)
 Theorem C05_harness_runs_are_reachable :
-  forall k setup p1 errs sched p2 errs2 errs3,
-    reachable gen_cfg k (r_final (run_case gen_cfg k setup p1 errs sched p2 errs2 errs3)).
+  forall k setup np p1 errs sched p2 errs2 errs3 e4,
+    reachable gen_cfg k (r_final (run_case gen_cfg k setup np p1 errs sched p2 errs2 errs3 e4)).
 Proof. exact (run_case_reachable gen_cfg). Qed.
 
 (* non-vacuity: the hypotheses of T2 are reachable (driver parks, then a stream raises and wakes it) *)
@@ -98,17 +115,20 @@ Proof.
 Qed.
 (* two streams and the driver raise three different errors: everybody reports the first, one close *)
 Example C05_three_errors_inhabited :
-  let r := run_case gen_cfg 2 (Some ([CallPCE; CallPCE], false)) ([CallPCE; CallHandle (Internal H3_CLOSED_CRITICAL_STREAM)], true)
+  let r := run_case gen_cfg 2 (Some ([CallPCE; CallPCE], false)) 1 ([CallPCE; CallHandle (Internal H3_CLOSED_CRITICAL_STREAM)], true)
              [Internal H3_FRAME_UNEXPECTED; Internal H3_FRAME_ERROR] [2; 0; 1; 0; 0; 2; 1; 0; 0; 0; 0]%nat
-             ([CallPCE; CallPCE], true) [Quic (QAppClose 999); Quic (QAppClose 999)] [Quic (QAppClose 999); Quic (QAppClose 999)] in
+             ([CallPCE; CallPCE], true) [Some (Quic (QAppClose 999)); None] [Some (Quic (QAppClose 999)); Some (Quic (QAppClose 999))]
+             (Some (Quic (QAppClose 999))) in
   r_d1 r = Some (EReport HDriver (CLocal H3_FRAME_ERROR)) /\
   r_s1 r = [Some (CLocal H3_FRAME_ERROR); Some (CLocal H3_FRAME_ERROR)] /\
-  r_s2 r = [Some (CLocal H3_FRAME_ERROR); Some (CLocal H3_FRAME_ERROR)] /\
+  r_s2 r = [Some (CLocal H3_FRAME_ERROR); None] /\
+  r_d4 r = Some (EReport HDriver (CLocal H3_FRAME_ERROR)) /\
   r_s3 r = [Some (CLocal H3_FRAME_ERROR); Some (CLocal H3_FRAME_ERROR)] /\
   r_d3 r = Some (EReport HDriver (CLocal H3_FRAME_ERROR)) /\ r_close r = [H3_FRAME_ERROR].
 Proof. vm_compute. repeat split; reflexivity. Qed.
 
 Print Assumptions C05_generated_facts.
+Print Assumptions C05_generated_stream_facts.
 Print Assumptions C05_cell_set_once.
 Print Assumptions C05_cell_is_first_raise.
 Print Assumptions C05_single_outcome.
@@ -119,6 +139,7 @@ Print Assumptions C05_no_lost_wakeup.
 Print Assumptions C05_parked_driver_is_woken.
 Print Assumptions C05_no_quiet_poll_after_error.
 Print Assumptions C05_repolled_driver_reports.
+Print Assumptions C05_failed_driver_call_reports.
 Print Assumptions C05_single_outcome_any_order.
 Print Assumptions C05_check_before_register_refuted.
 Print Assumptions C05_harness_runs_are_reachable.
